@@ -33,6 +33,56 @@ from sc3.synth.buffer import Buffer
 from sc3.synth.node import Node, Group, Synth
 
 
+import types
+import sc3.synth._serverstatus as sst
+
+
+class CapFunc:
+    '''stands in for responders.OscFunc inside _send_notify_request: keeps the responder function so that the driver can
+    deliver the server's reply message to it'''
+    captured = {}
+
+    def __init__(self, func, path, *a, **kw):
+        self.func = func
+        CapFunc.captured[path] = self
+
+    def one_shot(self):
+        pass
+
+    def free(self):
+        pass
+
+    def enable(self):
+        pass
+
+    def disable(self):
+        pass
+
+
+def deliver_notify_reply(s, state, kind, reply):
+    '''_send_notify_request(True) as the watcher does while booting / registering, then the server's OSC reply
+    ['/done' | '/fail', '/notify', *reply] is handed to the responder function the library registered for it.'''
+    sw = s._status_watcher
+    sw._server_booting = state == 'booting'
+    sw._server_registering = state == 'registering'
+    sw._server_unregistering = state == 'unregistering'
+    real_rpd = sst.rpd
+    sst.rpd = types.SimpleNamespace(OscFunc=CapFunc)
+    saved = (sw._finalize_boot_done, sw._finalize_register_done)
+    sw._finalize_boot_done = lambda: None          # ServerBoot / sync / tree: not the property's business
+    sw._finalize_register_done = lambda: None
+    try:
+        CapFunc.captured = {}
+        sw._send_notify_request(True)
+        path = '/done' if kind == 'done' else '/fail'
+        CapFunc.captured[path].func([path, '/notify'] + list(reply), 0.0, s.addr, 57120)
+    finally:
+        sst.rpd = real_rpd
+        del sw._finalize_boot_done, sw._finalize_register_done
+        sw._server_booting = sw._server_registering = sw._server_unregistering = False
+        sw._clear_actions()
+
+
 class Chooser:
     r = 0
     last = None
@@ -248,15 +298,17 @@ def run_case(servers, c):
                                     'mask': s._node_allocator._mask, 'temp': s._node_allocator._temp,
                                     'id_offset': s._node_allocator.id_offset()})
                 run.expect(what, run.calls == [], 'node ids reached a bus/buffer allocator: %s' % (run.calls,))
-            elif kind in ('R', 'O', 'L'):
+            elif kind in ('R', 'O', 'L', 'M'):
                 before = [getattr(s, ATTR[w]) for w in KINDS] + [s._node_allocator]
                 if kind == 'R':
                     s._set_client_id(op[1])
                 elif kind == 'O':
                     for f, v in op[1].items():
                         setattr(s.options, f, v)    # the user changes options; nothing is rebuilt until _set_client_id
-                else:                               # the server's reply to /notify: granted id, reported login count
+                elif kind == 'L':                   # the server's reply to /notify: granted id, reported login count
                     s._status_watcher._handle_login_done(op[1], op[2])
+                else:                               # ['M', state, 'done'|'fail', reply]: the real 'done'/'fail' responder gets the message
+                    deliver_notify_reply(s, op[1], op[2], op[3])
                 after = [getattr(s, ATTR[w]) for w in KINDS] + [s._node_allocator]
                 rebuilt = [x is not y for x, y in zip(before, after)]
                 run.expect(what, all(rebuilt) or not any(rebuilt), 'only some allocators were re-created: %s' % (rebuilt,))
